@@ -164,4 +164,209 @@ theorem sink_spec {cmp : α → α → Int} (tp : TotalPreorder cmp) (n lo : Nat
       intro i hi2 hin hlo'
       exact inv.dom i hi2 hin hlo' (by omega)
 
+/-- `b[1..n]` is a max-heap -/
+def IsHeap (cmp : α → α → Int) (b : Array α) (n : Nat) : Prop :=
+  ∀ i, 2 ≤ i → (hin : i ≤ n) → (hn : n < b.size) → cmp (b[i]'(by omega)) (b[i/2]'(by omega)) ≤ 0
+
+theorem heapBuild_spec {cmp : α → α → Int} (tp : TotalPreorder cmp) (n : Nat) :
+    ∀ (f : Nat) (k : Nat) (b : Array α), (hn : n < b.size) → k < f →
+      (∀ i, 2 ≤ i → (hin : i ≤ n) → k + 1 ≤ i / 2 → cmp (b[i]'(by omega)) (b[i/2]'(by omega)) ≤ 0) →
+      ∃ b', heapBuild cmp (n : Int) f (k : Int) b = .ok b' ∧ b'.size = b.size ∧ b'.Perm b ∧
+        IsHeap cmp b' n ∧ b'[0]? = b[0]? := by
+  intro f
+  induction f with
+  | zero => intro k b _ hf; omega
+  | succ f ih =>
+    intro k b hn hf hdom
+    unfold heapBuild
+    by_cases hk : 1 ≤ k
+    · have c1 : (k : Int) ≥ 1 := by omega
+      simp only [c1, ↓reduceIte]
+      have inv : SinkInv cmp b n k k := by
+        refine ⟨hn, ?_, ?_⟩
+        · intro i hi2 hin hlo hne; exact hdom i hi2 hin (by omega)
+        · intro i hi2 hin hik hlo; omega
+      obtain ⟨b1, h1, post⟩ := sink_spec tp n k (b.size + 1) k b hk (Nat.le_refl _) (by omega) inv
+      rw [h1]
+      simp only [ok_bind]
+      have e : ((k : Int) - 1) = ((k - 1 : Nat) : Int) := by omega
+      rw [e]
+      obtain ⟨b2, h2, g1, g2, g3, g4⟩ := ih (k-1) b1 (by rw [post.hsz]; exact hn) (by omega)
+        (by intro i hi2 hin hlo; exact post.dom i hi2 hin (by omega))
+      refine ⟨b2, h2, by rw [g1, post.hsz], g2.trans post.perm, g3, ?_⟩
+      rw [g4]
+      have := post.frame 0 (Or.inl (by omega)) (by omega)
+      have hb1 : 0 < b1.size := by rw [post.hsz]; omega
+      simp [Array.getElem?_eq_getElem hb1, Array.getElem?_eq_getElem (by omega : 0 < b.size), this]
+    · have c1 : ¬ (k : Int) ≥ 1 := by omega
+      simp only [c1, ↓reduceIte]
+      refine ⟨b, rfl, rfl, Array.Perm.refl _, ?_, rfl⟩
+      intro i hi2 hin _
+      exact hdom i hi2 hin (by omega)
+
+/-- the root of a heap is a maximum -/
+theorem heap_root_max {cmp : α → α → Int} (tp : TotalPreorder cmp) {b : Array α} {n : Nat} (hn : n < b.size)
+    (hh : IsHeap cmp b n) : ∀ p, (hp1 : 1 ≤ p) → (hp : p ≤ n) → cmp (b[p]'(by omega)) (b[1]'(by omega)) ≤ 0 := by
+  intro p
+  induction p using Nat.strongRecOn with
+  | _ p ih =>
+    intro hp1 hpn
+    by_cases h1 : p = 1
+    · subst h1; exact tp.refl _
+    · have h2 := hh p (by omega) hpn hn
+      have h3 := ih (p/2) (by omega) (by omega) (by omega)
+      exact tp.trans _ _ _ h2 h3
+
+/-- loop invariant of the second phase -/
+structure DrainInv (cmp : α → α → Int) (b : Array α) (n : Nat) : Prop where
+  hn : n < b.size
+  heap : IsHeap cmp b n
+  sorted : SortedSeg cmp b (n+1) b.size
+  below : ∀ p q, 1 ≤ p → (hp : p ≤ n) → (hq1 : n < q) → (hq : q < b.size) → cmp (b[p]'(by omega)) b[q] ≤ 0
+
+theorem heapDrain_spec {cmp : α → α → Int} (tp : TotalPreorder cmp) :
+    ∀ (f : Nat) (n : Nat) (b : Array α), n < f → DrainInv cmp b n →
+      ∃ b', heapDrain cmp f (n : Int) b = .ok b' ∧ b'.size = b.size ∧ b'.Perm b ∧
+        SortedSeg cmp b' 1 b'.size ∧ b'[0]? = b[0]? := by
+  intro f
+  induction f with
+  | zero => intro n b hf; omega
+  | succ f ih =>
+    intro n b hf inv
+    have hn := inv.hn
+    unfold heapDrain
+    by_cases hn1 : 1 < n
+    · have c1 : (n : Int) > 1 := by omega
+      simp only [c1, ↓reduceIte]
+      rw [swap_ok (i := 1) (by omega) (by omega) (by omega) (by omega)]
+      simp only [ok_bind, Int.toNat_natCast, Int.toNat_one]
+      have e : ((n : Int) - 1) = ((n - 1 : Nat) : Int) := by omega
+      rw [e]
+      have hroot := heap_root_max tp hn inv.heap
+      have hb1sz : (b.swap 1 n (by omega) (by omega)).size = b.size := by simp
+      have sinv : SinkInv cmp (b.swap 1 n (by omega) (by omega)) (n-1) 1 1 := by
+        refine ⟨by rw [hb1sz]; omega, ?_, ?_⟩
+        · intro i hi2 hin hlo hne
+          simp only [Array.getElem_swap]
+          have h1 : i ≠ 1 := by omega
+          have h2 : i ≠ n := by omega
+          have h3 : i / 2 ≠ 1 := hne
+          have h4 : i / 2 ≠ n := by omega
+          simp [h1, h2, h3, h4]
+          exact inv.heap i hi2 (by omega) hn
+        · intro i hi2 hin hik hlo; omega
+      obtain ⟨b2, h2, post⟩ := sink_spec tp (n-1) 1 ((b.swap 1 n (by omega) (by omega)).size + 1) 1 _
+        (Nat.le_refl _) (Nat.le_refl _) (by rw [hb1sz]; omega) sinv
+      have h2' : sink cmp ((n - 1 : Nat) : Int) ((b.swap 1 n (by omega) (by omega)).size + 1) 1
+          (b.swap 1 n (by omega) (by omega)) = .ok b2 := h2
+      rw [h2']
+      simp only [ok_bind]
+      have hb2sz : b2.size = b.size := by rw [post.hsz, hb1sz]
+      have inv' : DrainInv cmp b2 (n-1) := by
+        refine ⟨by omega, ?_, ?_, ?_⟩
+        · intro i hi2 hin _
+          exact post.dom i hi2 hin (by omega)
+        · -- suffix [n .. N) sorted
+          intro p q hp hpq hq hq'
+          have fq := post.frame q (Or.inr (by omega)) (by omega)
+          have fp := post.frame p (Or.inr (by omega)) (by omega)
+          rw [fq, fp]
+          simp only [Array.getElem_swap]
+          have hq1 : q ≠ 1 := by omega
+          have hqn : q ≠ n := by omega
+          have hp1 : p ≠ 1 := by omega
+          by_cases hpn : p = n
+          · subst hpn
+            simp [hq1, hqn, hp1]
+            exact inv.below 1 q (Nat.le_refl _) (by omega) (by omega) (by omega)
+          · simp [hq1, hqn, hp1, hpn]
+            exact inv.sorted p q (by omega) hpq (by omega) (by omega)
+        · intro p q hp1 hp hq1 hq
+          have fq := post.frame q (Or.inr (by omega)) (by omega)
+          rw [fq]
+          -- every element of b1[1..n-1] is ≤ b1[q]
+          refine post.pres (fun x => cmp x ((b.swap 1 n (by omega) (by omega))[q]'(by omega)) ≤ 0) ?_ p hp1 hp
+          intro r hr1 hrn
+          simp only [Array.getElem_swap]
+          have hq1' : q ≠ 1 := by omega
+          have hr_n : r ≠ n := by omega
+          by_cases hqn : q = n
+          · subst hqn
+            by_cases hr1' : r = 1
+            · subst hr1'
+              simp [hq1']
+              exact hroot q (by omega) (Nat.le_refl _)
+            · simp [hr1', hr_n, hq1']
+              exact hroot r hr1 (by omega)
+          · by_cases hr1' : r = 1
+            · subst hr1'
+              simp [hq1', hqn]
+              exact inv.below n q (by omega) (Nat.le_refl _) (by omega) (by omega)
+            · simp [hr1', hr_n, hq1', hqn]
+              exact inv.below r q hr1 (by omega) (by omega) (by omega)
+      obtain ⟨b3, h3, g1, g2, g3, g4⟩ := ih (n-1) b2 (by omega) inv'
+      refine ⟨b3, h3, by omega, (g2.trans post.perm).trans (Array.swap_perm _ _), g3, ?_⟩
+      rw [g4]
+      have := post.frame 0 (Or.inl (by omega)) (by omega)
+      have h0 : 0 < b2.size := by omega
+      simp [Array.getElem?_eq_getElem h0, Array.getElem?_eq_getElem (by omega : 0 < b.size), this,
+        Array.getElem_swap]
+      have : (0 : Nat) ≠ n := by omega
+      simp [this]
+    · have c1 : ¬ (n : Int) > 1 := by omega
+      simp only [c1, ↓reduceIte]
+      refine ⟨b, rfl, rfl, Array.Perm.refl _, ?_, rfl⟩
+      intro p q hp hpq hq hq'
+      by_cases hpn : n < p
+      · exact inv.sorted p q (by omega) hpq hq hq'
+      · exact inv.below p q hp (by omega) (by omega) hq'
+
+theorem heapCore_spec {cmp : α → α → Int} (tp : TotalPreorder cmp) (b : Array α) (hb : 0 < b.size) :
+    ∃ b', heapCore cmp b = .ok b' ∧ b'.size = b.size ∧ b'.Perm b ∧ SortedSeg cmp b' 1 b'.size ∧ b'[0]? = b[0]? := by
+  unfold heapCore
+  have e : ((b.size : Int) - 1) = ((b.size - 1 : Nat) : Int) := by omega
+  have e2 : (((b.size - 1 : Nat) : Int) / 2) = (((b.size - 1) / 2 : Nat) : Int) := by omega
+  simp only [e, e2]
+  obtain ⟨b1, h1, g1, g2, g3, g4⟩ := heapBuild_spec tp (b.size - 1) (b.size + 1) ((b.size - 1) / 2) b (by omega) (by omega)
+    (by intro i hi2 hin hlo; omega)
+  rw [h1]
+  simp only [ok_bind]
+  have inv : DrainInv cmp b1 (b.size - 1) := by
+    refine ⟨by omega, g3, ?_, ?_⟩
+    · intro p q hp hpq hq hq'; omega
+    · intro p q hp1 hp hq1 hq; omega
+  obtain ⟨b2, h2, k1, k2, k3, k4⟩ := heapDrain_spec tp (b1.size + 1) (b.size - 1) b1 (by omega) inv
+  rw [h2]
+  exact ⟨b2, rfl, by omega, k2.trans g2, k3, by rw [k4, g4]⟩
+
+theorem heap_spec {cmp : α → α → Int} (tp : TotalPreorder cmp) (zero : α) (a : Array α) :
+    ∃ out, heap cmp zero a = .ok out ∧ IsSortOf cmp out a := by
+  obtain ⟨b', h1, hsz, hperm, hsorted, h0⟩ := heapCore_spec tp (#[zero] ++ a) (by simp; omega)
+  simp only [heap, h1, ok_bind]
+  refine ⟨_, rfl, ?_, ?_⟩
+  · -- sorted
+    apply sorted_of_sortedSeg
+    intro p q _ hpq hq hq'
+    simp only [Array.size_extract] at hq hq'
+    simp only [Array.getElem_extract]
+    exact hsorted (1+p) (1+q) (by omega) (by omega) (by omega) (by omega)
+  · -- permutation: b' = zero :: out and #[zero] ++ a = zero :: a
+    have hsz' : b'.size = a.size + 1 := by rw [hsz]; simp; omega
+    have hl : b'.toList = zero :: (b'.extract 1 b'.size).toList := by
+      apply List.ext_getElem
+      · simp; omega
+      · intro i h1 h2
+        cases i with
+        | zero =>
+          have : b'[0]? = some zero := h0.trans (by simp [Array.getElem?_append])
+          have h3 : 0 < b'.size := by omega
+          rw [Array.getElem?_eq_getElem h3] at this
+          simpa using this
+        | succ i => simp
+    have hp := Array.perm_iff_toList_perm.1 hperm
+    rw [hl] at hp
+    have : (#[zero] ++ a).toList = zero :: a.toList := by simp
+    rw [this] at hp
+    exact List.Perm.cons_inv hp
+
 end AlgoVerif.C07
